@@ -248,12 +248,17 @@ def extract_branch_results_with_internals(net, branch_results, table_name,
             _, sections, connected_sum = _sum_by_group(use_numba, idx_pit, np.ones_like(idx_pit),
                                 comp_connected.astype(np.int32))
             connected_ind = connected_sum > 0.99
-            indices_last_section = (np.cumsum(sections) - 1).astype(int)[connected_ind]
+            # "sections" is ordered by element index, the pit by table rows: bring the section numbers into row
+            # order before accumulating them to the position of each element's last section
+            sections_row_order = np.empty_like(sections)
+            sections_row_order[placement_table] = sections
+            last_section_row_order = (np.cumsum(sections_row_order) - 1).astype(int)
+            indices_last_section = last_section_row_order[placement_table][connected_ind]
             # hint: idx_pit[placement_table] should result in the indices as ordered in the table
             pt = placement_table[connected_ind]
 
             for i, (res_name, entry) in enumerate(res_branch):
-                res_table[res_name].values[pt] = branch_results[entry][indices_last_section]
+                res_table[res_name].values[pt] = branch_results[entry][f:t][indices_last_section]
 
 
 def extract_branch_results_without_internals(net, branch_results, required_results_hydraulic,
